@@ -1,6 +1,7 @@
 """C18 — Directory diffs are exact and safely ordered.
 
-Lean: Model/Diff.lean, Proofs/Diff*.lean, Props/C18.lean, driver drv_dif.
+Lean: Model/Diff.lean, Proofs/Diff*.lean, Props/C18.lean, driver drv_dif; translation tie
+Gen/Diff.lean (harness/translate_c18.py) + Bridge/Diff.lean over the dictionary Py/DiffPy.lean.
 Real code: `metador_core.util.diff.DirDiff.compare / DiffNode.nodes / status / DirDiff.get` on pairs
 of nested dicts of the shape `dir_hashsums` produces (str = file hashsum or "symlink:<target>",
 dict = directory), built directly, never sharing sub-dicts between the two trees.
@@ -19,12 +20,28 @@ from .. import core, lean
 ID = "C18"
 MOD = "harness.props.c18"
 T = "MetadorModel.C18."
+B = "MetadorModel.Bridge.Diff."
 LEAN = dict(
-    modules=["MetadorModel.Props.C18"],
+    modules=["MetadorModel.Props.C18"] +
+            # one bridge module per translated function: a changed function breaks its own obligation
+            ["MetadorModel.Bridge." + m for m in ["DiffType", "DiffStatus", "DiffChildren", "DiffCompare", "DiffNodes",
+                                                   "DiffGet", "Diff"]],
     theorems=[T + n for n in ["compare_none_iff", "reported_exact", "order_safe", "get_agrees",
-                              "compare_none_iff_lookup", "reported_once"]],
+                              "compare_none_iff_lookup", "reported_once"]] +
+             # translation tie: Gen/Diff.lean (regenerated from util/diff.py on every run) = Model/Diff.lean
+             [B + n for n in ["gen_type", "gen_prev_curr_type", "gen_status", "gen_children", "gen_compare",
+                              "gen_compare_top", "gen_nodes", "gen_nodes_compare", "gen_get"]],
     drivers=["drv_dif"],
 )
+
+
+def translate(ctx):
+    """regenerate Gen/Diff.lean from util/diff.py of the checked tree (see harness/translate_c18.py)"""
+    import os
+
+    from .. import translate_c18
+    changed = lean.write_if_changed(os.path.join(lean.LEAN, "MetadorModel", "Gen", "Diff.lean"), translate_c18.gen_diff())
+    return "Gen/Diff.lean %s" % ("rewritten" if changed else "unchanged")
 
 
 # ----------------------------------------------------------------------------- encodings
